@@ -74,9 +74,14 @@ func FuzzReader(f *testing.F) {
 				if err == nil {
 					t.Fatalf("Read returned (0, nil)")
 				}
+				if err != io.EOF {
+					// callers retry: the calls after an error must come back too
+					for k := 0; k < 3; k++ {
+						rd.Read(buf)
+					}
+				}
 				break
 			}
-			_ = io.EOF
 		}
 		rd.Close()
 	})
